@@ -419,7 +419,7 @@ pub fn c17(d: &Digest, out: &mut Vec<Violation>) {
         let c = &d.calls[bc];
         let end = c.ret.unwrap_or(d.ev.len());
         // worker thread name prefix
-        let prefix = format!("{}-pool", sd.model.name);
+        let prefix = sd.model.name.clone();
         for e in &d.ev[c.inv..end] {
             if let K::Spawn { name, parent, .. } = &e.k {
                 if *parent != c.tid {
